@@ -47,7 +47,7 @@ def hostile_family(seed, n):
 def run(v):
     ensure_dirs()
     hbin = build_harness()
-    n = 90 if v.tier == "quick" else 900
+    n = 300 if v.tier == "quick" else 3000
     fam, clean = hostile_family(SEED + 160, n)
     # the specification sees the unique tokens only: strip the hostile suffix from the copy TLC reads
     recs, t = judge_render(v, "C16", hbin, fam, "d", docs=True, spec_fam=clean)
